@@ -1,6 +1,7 @@
 import CollectionsC.Driver.Cmd
 import CollectionsC.Spec.Fifo
 import CollectionsC.Model.Rbuf
+-- container: rbuf
 namespace CC.Driver.RbufD
 open CC CC.Driver
 
